@@ -120,22 +120,25 @@ def fmtMat (M : Array GRat) : String :=
 def dense (s : Sem GRat) : Option (Array GRat) :=
   if shapeOk s.osh && shapeOk s.ish then toDense s.osz s.isz s.E else none
 
+/-- reply for an expression: shapes and the dense matrices of `e`, `e.H`, `e.N` -/
+def matsReply (e : E) : String :=
+  match gden e, gden (gadj e), gden (gnormal e) with
+  | some s, some sh, some sn =>
+    match dense s, dense sh, dense sn with
+    | some M, some MH, some MN =>
+      if sh.osh = s.ish ∧ sh.ish = s.osh ∧ sn.osh = s.ish ∧ sn.ish = s.ish then
+        s!"ok {fmtIntList s.osh} | {fmtIntList s.ish} | {fmtMat M} | {fmtMat MH} | {fmtMat MN}"
+      else "err adj-shape"
+    | _, _, _ => "err index"
+  | none, _, _ => "err build"
+  | _, _, _ => "err adj-build"
+
 def handle (toks : List String) : String :=
   match toks with
   | "mats" :: rpn =>
     match parseRpn rpn with
     | none => "err bad-op"
-    | some e =>
-      match gden e, gden (gadj e), gden (gnormal e) with
-      | some s, some sh, some sn =>
-        match dense s, dense sh, dense sn with
-        | some M, some MH, some MN =>
-          if sh.osh = s.ish ∧ sh.ish = s.osh ∧ sn.osh = s.ish ∧ sn.ish = s.ish then
-            s!"ok {fmtIntList s.osh} | {fmtIntList s.ish} | {fmtMat M} | {fmtMat MH} | {fmtMat MN}"
-          else "err adj-shape"
-        | _, _, _ => "err index"
-      | none, _, _ => "err build"
-      | _, _, _ => "err adj-build"
+    | some e => matsReply e
   | _ => "err bad-op"
 
 end SigpyVerif.C01.Proto
